@@ -307,7 +307,7 @@ class Gen:
         return ['new', 'create_library', 'create_definition', 'create_port', 'create_cable', 'create_child', 'create_pin',
                 'create_pins', 'create_wire', 'create_wires', 'add', 'remove', 'remove_from', 'reorder', 'reorder_bad',
                 'connect', 'disconnect', 'disconnect_from', 'reference', 'unreference', 'top', 'set_top', 'name', 'data',
-                'deldata', 'popdata', 'scalar', 'wire_pins_proxy', 'add_pin_instanced', 'create_child_dup', 'add_cross']
+                'deldata', 'popdata', 'scalar', 'wire_pins_proxy', 'add_pin_instanced', 'create_child_dup', 'add_cross', 'repoint_compatible', 'connect_outer']
 
     def next(self):
         r, W = self.r, self.W
@@ -353,6 +353,18 @@ class Gen:
             if not c: return None
             if not q: return {'op': 'new', 'args': ['InnerPin']}
             return call({'o': r.choice(c)}, 'add_pin', {'o': r.choice(q)}, pos())
+        if op == 'repoint_compatible':
+            cands = [i for i in W.of('Instance') if W.objs[i]._reference is not None]
+            if not cands: return None
+            i = r.choice(cands); d = W.objs[i]._reference
+            shape = [len(p._pins) for p in d._ports]
+            same = [j for j in W.of('Definition') if [len(p._pins) for p in W.objs[j]._ports] == shape]
+            if not same: return None
+            return {'op': 'setattr', 'args': [{'o': i}, 'reference', {'o': r.choice(same)}]}
+        if op == 'connect_outer':
+            ws = W.of('Wire'); ops = [i for i in W.of('OuterPin') if W.objs[i]._wire is None and W.objs[i]._instance is not None]
+            if not ws or not ops: return None
+            return call({'o': r.choice(ws)}, 'connect_pin', {'o': r.choice(ops)}, pos())
         if op == 'add_cross':
             # a bundle of the other kind: Port where a Cable is expected and vice versa
             meth, k = r.choice([('add_cable', 'Port'), ('add_port', 'Cable')])
@@ -518,6 +530,15 @@ def run_history(seed, steps, focus, checks, records=None, policy='DEFAULT', mirr
             tables_before = repr(sorted(irlib.ns_tables(W.ids).items())) if 'C14' in checks else None
             if mirror: mirror.early = []; mirror.log = []
             outcome = 'ok'
+            repoint = None
+            if rec['op'] == 'setattr' and rec['args'][1] == 'reference' and 'C02' in checks:
+                try:
+                    inst = resolve(W, rec['args'][0]); newd = resolve(W, rec['args'][2])
+                    if isinstance(inst, sdn.Instance) and inst._reference is not None and isinstance(newd, sdn.Definition):
+                        repoint = (inst, newd, [[(inst._pins.get(q), inst._pins.get(q)._wire if inst._pins.get(q) is not None else None)
+                                                  for q in p._pins] for p in inst._reference._ports])
+                except Exception:
+                    repoint = None
             try:
                 res = execute(W, rec)
                 W.reg(res)
@@ -540,6 +561,17 @@ def run_history(seed, steps, focus, checks, records=None, policy='DEFAULT', mirr
                     if len(W2.objs) != nb:
                         fail = ('C14.residue', 'refused call (%s) left %d new object(s) reachable from old ones' % (outcome, len(W2.objs) - nb))
             W.harvest()
+            if fail is None and repoint is not None and outcome == 'ok':
+                inst, newd, before = repoint
+                for a, port in enumerate(newd._ports):
+                    for b, q in enumerate(port._pins):
+                        o = inst._pins.get(q)
+                        if a < len(before) and b < len(before[a]):
+                            if o is not before[a][b][0]:
+                                fail = ('C02.repoint-position', 'after re-pointing, pin %d of port %d carries a different outer pin object than the corresponding pin did' % (b, a)); break
+                            if o is not None and (o._wire is not before[a][b][1] or (o._wire is not None and not any(x is o for x in o._wire._pins))):
+                                fail = ('C02.repoint-connection', 'after re-pointing, the connection of pin %d of port %d changed' % (b, a)); break
+                    if fail: break
             if fail is None:
                 errs = irlib.check_inv(W.objs, clauses=[c for c in ('I1', 'I2', 'I3', 'I4') if c in checks or
                                                       (c in ('I1', 'I2') and 'C01' in checks) or (c in ('I3', 'I4') and 'C02' in checks)])
